@@ -481,6 +481,12 @@ class Executor:
 
         prog_counter = self._program_counters[subroutine_id]
 
+        if isinstance(command, ins.base.DebugInstruction):
+            # A comment of a debug transpilation: there is nothing to do. (The branch
+            # targets of such a subroutine count the comments.)
+            self._program_counters[subroutine_id] += 1
+            return
+
         output = None
         if command.mnemonic in self._instruction_handlers:
             output = self._instruction_handlers[command.mnemonic](
